@@ -118,6 +118,11 @@ def tight_jobs(tier):
 # extension modules merged into this property's job list (vdriver.ext_jobs / ext_meta)
 EXT = [
     ("C08_scl", None),
+    # jobs of other properties whose obligations ARE "no access outside the pixel storage": the vertical clamps of
+    # pixman_rasterize_trapezoid / pixman_add_traps (rows handed to rasterize_edges lie inside the image) and the bounds
+    # tests of the fast-path separable-convolution fetcher (seeds C04-4, C04-5, C03-5)
+    ("C12", lambda n: n.startswith("trap.")),
+    ("C08", lambda n: n.startswith("fastpath.sepconv.table")),
 ]
 
 
